@@ -12,6 +12,9 @@ CVC5_TIMEOUT_S = int(os.environ.get("PVC_CVC5_TIMEOUT_S", "30"))
 CVC5 = "/usr/bin/cvc5"
 # deterministic resource limit per solver call (z3 "rlimit"): verdicts do not depend on machine load
 RLIMIT = int(os.environ.get("PVC_RLIMIT", "40000000"))
+# wall-clock budgets are only a safety net behind the deterministic rlimit: they are stretched by this factor so
+# that a busy machine (16 cores shared with other jobs) does not turn a provable obligation into `unknown`
+TF = float(os.environ.get("PVC_TIME_FACTOR", "8"))
 
 
 class Verdict:
@@ -58,6 +61,25 @@ def _outdir():
     return d
 
 
+_LAST_RL = {}
+
+
+def _rl_note(stage, solver, res):
+    if not os.environ.get("PVC_RLTRACE"):
+        return
+    try:
+        st = solver.statistics()
+        rl = [st.get_key_value(k) for k in st.keys() if k == "rlimit count"]
+        cur = rl[0] if rl else -1
+        global _LAST_RL
+        d = cur - _LAST_RL.get(os.getpid(), 0)
+        _LAST_RL[os.getpid()] = cur
+        with open(os.environ["PVC_RLTRACE"], "a") as f:
+            f.write("%s %s %s\n" % (stage, res, d))
+    except Exception:  # noqa
+        pass
+
+
 def prove(assumptions, goal, timeout_ms=None, use_cvc5=True, cross_check=False, tactic=None, rlimit=None, quick=False):
     """returns dict(verdict, backend, seconds, model (z3 ModelRef or None), reason)"""
     timeout_ms = timeout_ms or Z3_TIMEOUT_MS
@@ -75,20 +97,22 @@ def prove(assumptions, goal, timeout_ms=None, use_cvc5=True, cross_check=False, 
         rel = None
     if rel is not None and len(rel) < len(flatten(assumptions)):
         s0 = z3.SimpleSolver()
-        s0.set("timeout", min(timeout_ms, 4000))
+        s0.set("timeout", int(min(timeout_ms, 4000) * TF))
         s0.set("rlimit", RL)
         for a in rel:
             s0.add(a)
         s0.add(z3.Not(goal))
-        if s0.check() == z3.unsat:
+        r0_ = s0.check()
+        _rl_note("cone", s0, r0_)
+        if r0_ == z3.unsat:
             out["verdict"] = Verdict.PROVED
             out["backend"] = "z3-%s (smt-core, cone of influence)" % z3.get_version_string()
             out["seconds"] = time.time() - t0
             return _finish(out, assumptions, goal, use_cvc5, cross_check)
+    # (budgets are rlimit-bound, so a second smt-core stage with a longer wall-clock budget would repeat the first)
     stages = [("smt-core", z3.SimpleSolver, min(timeout_ms, 6000)),
               ("abstracted", None, min(timeout_ms, 10000)),
-              ("default", z3.Solver, timeout_ms),
-              ("smt-core", z3.SimpleSolver, timeout_ms)]
+              ("default", z3.Solver, timeout_ms)]
     if quick:
         stages = stages[:1]
     for name, mk, tmo in stages:
@@ -102,12 +126,13 @@ def prove(assumptions, goal, timeout_ms=None, use_cvc5=True, cross_check=False, 
         if quick and name != "smt-core":
             continue
         s = mk()
-        s.set("timeout", tmo)
-        s.set("rlimit", RL)
+        s.set("timeout", int(tmo * TF))
+        s.set("rlimit", RL if name == "smt-core" else max(RL // 4, 1000000))
         for a in assumptions:
             s.add(a)
         s.add(z3.Not(goal))
         r = s.check()
+        _rl_note(name, s, r)
         if r == z3.unsat:
             out["verdict"] = Verdict.PROVED
             out["backend"] = "z3-%s (%s)" % (z3.get_version_string(), name)
@@ -150,7 +175,8 @@ def _finish(out, assumptions, goal, use_cvc5, cross_check):
 
 def satisfiable(formulas, timeout_ms=5000):
     s = z3.Solver()
-    s.set("timeout", timeout_ms)
+    s.set("timeout", int(timeout_ms * TF))
+    s.set("rlimit", RLIMIT)
     for f in formulas:
         s.add(f)
     r = s.check()
@@ -336,8 +362,8 @@ def prove_abstracted(assumptions, goal, timeout_ms):
         return None
     for mk in (z3.Solver, z3.SimpleSolver):
         s = mk()
-        s.set("timeout", timeout_ms)
-        s.set("rlimit", RLIMIT)
+        s.set("timeout", int(timeout_ms * TF))
+        s.set("rlimit", max(RLIMIT // 4, 1000000))
         for a in ab_as:
             s.add(a)
         s.add(z3.Not(ab_goal))
@@ -422,7 +448,7 @@ def refute_bounded(assumptions, goal, size=2, timeout_ms=20000):
                 reals[a.get_id()] = a
     ground_reals = list(reals.values())[:6]
     s = z3.SimpleSolver()
-    s.set("timeout", timeout_ms)
+    s.set("timeout", int(timeout_ms * TF))
     s.set("rlimit", RLIMIT)
     for c in sizeish:
         s.add(c <= size)
